@@ -26,7 +26,8 @@ MQ == 10000
 VARIABLE i
 tvars == <<vars, i>>
 
-CfgOf(t) == [kind |-> t.kind, w |-> t.w, delta |-> <<t.p, t.q>>, alpha |-> t.a]
+CfgOf(t) == [kind |-> t.kind, w |-> t.w, delta |-> <<t.p, t.q>>, alphas |-> {t.a}]
+Alpha    == Traces[i].a
 
 \* traces are picked in two stages (block, then trace) so that TLC's workers share them
 NB == 64
@@ -49,7 +50,7 @@ Rec    == Traces[i].steps[k]
 
 \* the boolean the real detector returned is the one the spec computes
 DetectExplained ==
-  Logged => (Undecided(cfg.alpha, metric, dof) \/ ((Rec[3] = 1) <=> detect))
+  Logged => (Undecided(Alpha, metric, dof) \/ ((Rec[3] = 1) <=> detect[Alpha]))
 
 \* |m.num/m.den - mq/MQ| <= 1/MQ
 Near(m, mq) ==
@@ -68,8 +69,8 @@ TwinExplained ==
   AtTwin => LET tw   == Traces[i].twin
                 last == Traces[i].steps[k + 1]
                 r    == Call(cfg, Mem, tw[1], last[2])
-            IN \/ Undecided(cfg.alpha, r.metric, r.dof)
-               \/ ((tw[2] = 1) <=> Reaches(cfg.alpha, r.metric, r.dof))
+                v    == Verdict(Alpha, r.metric, r.dof)
+            IN v.und \/ ((tw[2] = 1) <=> v.det)
 \* C17 last clause on the records themselves
 TwinMonotone ==
   AtTwin => LET tw   == Traces[i].twin
@@ -77,5 +78,5 @@ TwinMonotone ==
             IN tw[1] >= last[1] /\ (last[3] = 1 => tw[2] = 1)
 
 EmitT == Logged => PrintT("TSTEP " \o ToJson(<<i, k, metric.num, metric.den, dof[1], dof[2],
-                                               B01(Undecided(cfg.alpha, metric, dof))>>))
+                                               B01(Undecided(Alpha, metric, dof))>>))
 =============================================================================
